@@ -89,7 +89,20 @@ def vectors(ctx):
             peak = (amin * 1000) // rng.choice([3163, 3170, 3200, 3300])
             cls = "flat_ten_db"
         lead = rng.randrange(0, 40)
-        sig = modulate(rng, frames, amps, lead, gaps, 420 + rng.randrange(0, 200), peak, flat)
+        tail = 420 + rng.randrange(0, 200)
+        if k % 16 == 9 and frames:
+            # the buffer boundaries themselves: first frame at sample 0, last frame ending on the very last sample (a quiet
+            # 100-us window for the noise floor is then provided between the frames)
+            gaps = [max(g, 16 * len(f) + 260) for g, f in zip(gaps, frames)]
+            if len(frames) >= 2:
+                lead, tail = 0, 0
+                gaps[-1] = 0
+            elif k % 32 == 9:
+                lead = 0                          # a single frame: flush with the start ...
+            else:
+                lead, tail = 260 + rng.randrange(0, 100), 0   # ... or with the end of the buffer
+                gaps[-1] = 0
+        sig = modulate(rng, frames, amps, lead, gaps, tail, peak, flat)
         V.append({"fn": "demod", "sig": sig, "sent": sent, "cls": cls, "stop": 1, "case": [k, n, cls, peak, amin]})
     return V
 
